@@ -92,6 +92,9 @@ func (sc *fatScen) scenario(memo *acceptMemo) explore.Scenario {
 				add(s.fatckViols(after)...)
 			case "range":
 				add(s.rangeViols(after)...)
+			case "digest":
+				d := s.dev.DigestRange(s.cfg.Start, s.cfg.Start+s.cfg.Size)
+				out.Aux = fmt.Sprintf("%x", d[:12])
 			case "model":
 				skip := map[string]bool{}
 				if opErr != nil {
